@@ -98,6 +98,7 @@ def builtin_corpus():
     src("p(CutIf1, DoBreak) :- ( q(CutIf1) -> r(DoBreak) ; s ).", 'var'); src("p(_, _x, __, _1).", 'var')
     src("eval(x).\nexec(x).\n__import__(os).", 'head'); src("atom(x).\nquery(a, b).\nunify(X, X).\nvariable.", 'head')
     src("p :- eval('1+1').\nq :- call(eval, x).\nr :- X = '__import__', call(X, os).\ns :- exec(x) ; open(f).")
+    src("p :- '$CUTIF'('x = 1; y'), true."); src("p :- '$CUTIF'(a)."); src("p :- ( a -> '$CUTIF'(cutIf1), b ; c )."); src("'$CUTIF'(a).", 'head')
     src("p('''').\nq('\"\"\"').\nr('\\'').")
     src("p('a\\b').")          # a backslash in the source: dropped by the unquoter
     src("p('\\\\').")
